@@ -521,6 +521,8 @@ fn run_scenario(sc: &Scenario, dir: Option<&str>) -> Result<usize, String> {
     }
 }
 
+fn root() -> String { std::env::var("VERIF_ROOT").unwrap_or_else(|_| "/verif".to_string()) }
+
 fn main() {
     let args: Vec<String> = std::env::args().collect();
     let seed: u64 = std::env::var("VERIF_SEED").ok().and_then(|s| s.parse().ok()).unwrap_or(1);
@@ -592,11 +594,11 @@ fn main() {
                             continue;
                         }
                         // re-run with schedule persistence to get a replayable schedule file
-                        let dir = format!("/verif/replays/C15-{}-{}", seed, i);
+                        let dir = format!("{}/replays/C15-{}-{}", root(), seed, i);
                         let _ = std::fs::create_dir_all(&dir);
                         let _ = run_scenario(sc, Some(&dir));
                         let sched = std::fs::read_dir(&dir).ok().and_then(|mut d| d.next()).and_then(|e| e.ok()).map(|e| e.path().display().to_string());
-                        let path = format!("/verif/replays/C15-{}-{}.json", seed, i);
+                        let path = format!("{}/replays/C15-{}-{}.json", root(), seed, i);
                         let j = json!({"property": "C15", "engine": "trsim", "seed": seed, "iter": i, "schedule_file": sched, "violation": msg,
                             "scenario": ex.as_ref().ok().map(|e| scenario_json(sc, &e.text))});
                         let _ = std::fs::write(&path, serde_json::to_string_pretty(&j).unwrap());
@@ -636,8 +638,8 @@ fn main() {
                 "assumptions": ["shuttle's Mutex models std::sync::Mutex faithfully", "secp256k1 tweak arithmetic and sha256 are correct", "leaf script encoding (Miniscript::encode) is taken from the library; C15 is about the commitment structure"],
                 "wall_s": wall, "violations": n_viol
             });
-            let _ = std::fs::create_dir_all("/verif/evidence");
-            let _ = std::fs::write("/verif/evidence/C15.json", serde_json::to_string_pretty(&ev).unwrap());
+            let _ = std::fs::create_dir_all(format!("{}/evidence", root()));
+            let _ = std::fs::write(format!("{}/evidence/C15.json", root()), serde_json::to_string_pretty(&ev).unwrap());
             println!("C15: {} scenarios, {} controlled executions, {} distinct non-trivial, max depth {}, {:.1}s, exit {}", results.len(), executions, distinct.len(), max_depth, wall, exit);
             std::process::exit(exit);
         }
